@@ -473,7 +473,7 @@ def valid_case(case):
         return case["cls"] in CTXS and all(k in POOL for k in case["from"]) and case["item"] in POOL and (case["prejoin"] is None or case["prejoin"] in POOL) and \
             case["mode"] in ("on", "on_field", "using", "cross") and (case["mode"] != "on" or isinstance(case["crit"], list)) and len(case["from"]) >= 1 and \
             run_join(case)[0] != "setup" and _buildable(case)
-    except Exception:
+    except (Exception, HarnessError):
         return False
 
 
